@@ -15,7 +15,8 @@ prop("C13",
           "truncates, or returns a slice (i.e. is not a refusal/no-op); cases are distinct by construction",
      bounds={"quick": "L=6", "thorough": "L=9"},
      runs=[dict(name="h_bounded", sources=["harness/h_bounded.c"], profile="asan",
-                args={"quick": ["--L=6"], "thorough": ["--L=9"]})],
+                args={"quick": ["--L=6"], "thorough": ["--L=9"]}),
+           dict(name="h_compat", sources=["harness/h_compat.c"], profile="asan", args={})],
      deadline={"quick": 120, "thorough": 1200})
 
 
@@ -278,7 +279,7 @@ for _pid in ("C01", "C02", "C03", "C04", "C05", "C06", "C07", "C08", "C09", "C10
     _P = PROPS[_pid]
     _extra = []
     for _r in _P["runs"]:
-        if _r["name"].endswith("_leak") or _r["name"].endswith("_la") or _r["name"].endswith("_big") or "_hb" in _r["name"] or _r.get("profile") not in ("asan",):
+        if _r["name"].endswith("_leak") or _r["name"].endswith("_la") or _r["name"].endswith("_big") or "_hb" in _r["name"] or _r["name"] == "h_compat" or _r.get("profile") not in ("asan",):
             continue
         _d = dict(_r)
         _d["name"] = _r["name"] + "_dl"
